@@ -1594,6 +1594,19 @@ class LinearOperator(object):
         else:
             raise RuntimeError("Invalid arguments {} to expand.".format(sizes))
 
+        if all(size >= 0 for size in shape[:-2]):
+            # Only singleton (or missing) batch dimensions can be expanded
+            try:
+                valid = torch.broadcast_shapes(self.batch_shape, shape[:-2]) == shape[:-2]
+            except RuntimeError:
+                valid = False
+            if not valid:
+                raise RuntimeError(
+                    "The expanded batch shape {} is incompatible with the batch shape {} of the {}.".format(
+                        tuple(shape[:-2]), tuple(self.batch_shape), self.__class__.__name__
+                    )
+                )
+
         res = self._expand_batch(batch_shape=shape[:-2])
         return res
 
@@ -2822,6 +2835,10 @@ class LinearOperator(object):
                 if idx < -size or idx >= size:
                     raise IndexError(f"index {idx} is out of bounds for dimension {dim} with size {size}")
                 idx = idx + size if idx < 0 else idx
+            elif settings.debug.on() and torch.is_tensor(idx) and idx.numel() and not idx.dtype == torch.bool:
+                # (structured _get_indices / _getitem implementations would otherwise wrap around silently)
+                if idx.max() >= size or idx.min() < -size:
+                    raise IndexError(f"index tensor is out of bounds for dimension {dim} with size {size}")
             normalized_index.append(idx)
         index = tuple(normalized_index)
 
